@@ -108,13 +108,6 @@ Definition all_nil (fs : list (list string)) : bool :=
   forallb (fun f => match f with [] => true | _ => false end) fs.
 
 (* ---------------------------------------------------------------- *)
-(* Recorded finding classes of C12 *)
-(* the client's lease is acknowledged but its expiry has passed (MinuteTicker has not freed it yet):
-   only the renewing path of handleRequest compares DHCPExpiry with the clock *)
-Definition known_c12_expired (t : tstep) : bool :=
-  match op_msg (t_op t) with
-  | Some m => lease_expired (t_pre t) m (op_now (t_op t))
-  | None => false
-  end.
-Definition c12_class (c : cfg) (t : tstep) : list (string * list string) :=
-  if known_c12_expired t then [("c12-expired-lease-acked", ["ack-unhonourable"])] else [].
+(* Recorded finding classes of C12: none left (c12-prl-router-before-mask repaired by 94e2701,
+   c12-expired-lease-acked by 8b460ec). *)
+Definition c12_class (c : cfg) (t : tstep) : list (string * list string) := [].
